@@ -22,11 +22,7 @@ def main(argv):
         except ImportError as e:
             print('ANALYSIS-ERROR property=%s no rule module: %s' % (prop, e))
             return 2
-        rc = run_check(prop, tier, lambda ctx: mod.check(ctx))
-        if rc == 0 and tier == 'thorough':
-            from . import selftest
-            rc = selftest.run_for(prop)
-        return rc
+        return run_check(prop, tier, lambda ctx: mod.check(ctx))
     if cmd == 'replay':
         d = json.load(open(argv[1]))
         print('replay: re-running the check of property %s (rule %s, construct %s)' % (d['property'], d['rule'], d['construct']))
